@@ -280,7 +280,7 @@ fn c05(scn: &Scenario, rf: &Ref, ex: &Exec, out: &mut Vec<Finding>) {
         _ => {}
     }
     // source side
-    if scn.src == Src::SliceCloned {
+    if scn.src.clones() {
         let mut got: Vec<u64> = ex.rec.log.iter().filter(|e| e.kind == Kind::Clone).map(|e| e.a).collect();
         got.sort();
         let mut want = rf.clones.clone();
